@@ -368,8 +368,17 @@ func main() {
 	byName := map[string]*oblig{}
 	var obls []*oblig
 	var vacuous []string
+	retProbes, retDead := map[string]int{}, map[string]int{}
 	for _, q := range queries {
 		if q.Cover {
+			if strings.HasSuffix(q.Name, "/cover:return") {
+				// vacuous only if every probed return path is unreachable
+				retProbes[q.Name]++
+				if q.Result.Status == "unsat" {
+					retDead[q.Name]++
+				}
+				continue
+			}
 			if q.Result.Status == "unsat" {
 				vacuous = append(vacuous, q.Name)
 			}
@@ -409,8 +418,17 @@ func main() {
 		}
 	}
 	sort.Slice(obls, func(i, j int) bool { return obls[i].Name < obls[j].Name })
+	for n, k := range retProbes {
+		if retDead[n] == k {
+			vacuous = append(vacuous, n+" (no probed return path is reachable under the contracts assumed along it)")
+		}
+	}
+	sort.Strings(vacuous)
 
 	if *flagDump {
+		for n, k := range retProbes {
+			fmt.Printf("cover       %d/%d dead %s\n", retDead[n], k, n)
+		}
 		for _, o := range obls {
 			fmt.Printf("%-11s %-10s %6.2fs %s (%d queries)\n", o.Status, o.Solver, o.Seconds, o.Name, len(o.Queries))
 			if o.Status != "discharged" {
